@@ -1,0 +1,15 @@
+// 版权 @2024 凹语言 作者。保留所有权利。
+
+package printer
+
+import "fmt"
+
+// (start $main)
+
+func (p *watPrinter) printStart() error {
+	if p.m.Start == "" {
+		return nil
+	}
+	fmt.Fprintf(p.w, "%s(start %s)\n", p.indent, watPrinter_identOrIndex(p.m.Start))
+	return nil
+}
